@@ -46,13 +46,18 @@ def analysisVerdict (spec : Json → Json → String) (inp impl : Json) : Verdic
     match (cr.get "Fields").stringItems with
     | [q, _] => !quals.contains q
     | _ => false)
+  -- UPDATE … FROM … RETURNING *: sourceTables lists the FROM items BEFORE the updated relation, the database
+  -- returns the updated relation's columns first
+  let updFromStar := (src.search (·.isKind "UpdateStmt")).any (fun u =>
+    !(u.get "FromClause").items.isEmpty &&
+    (u.get "ReturningList").items.any (fun rt => Q.hasStarRef (rt.get "Val") && ((rt.get "Val").get "Fields").stringItems.isEmpty))
   { model := run.model, compare := !walkPanic && !reparseRejected impl, frag := if walkPanic then "out:walk-panic" else if reparseRejected impl then "out:reparse-rejected" else "in",
     specImpl := spec inp impl,
     trig := run.trig ++ (if ml then ["scopeLeak", "nestedLevel"] else []) ++ (if repeated then ["repeatedPlaceholder"] else []) ++
       (if exprCol then ["exprColumn"] else []) ++ (if needsQ then ["needsQuoting"] else []) ++
       (if resShared then ["reservedShared"] else []) ++ (if lenDrop then ["lengthDropped"] else []) ++
       (if coalesceAlias then ["coalesceAlias"] else []) ++ (if aliasList then ["aliasListIgnored"] else []) ++
-      (if unknownQual then ["unknownQualifier"] else []),
+      (if unknownQual then ["unknownQualifier"] else []) ++ (if updFromStar then ["updateFromStar"] else []),
     implProj := some (implProjection impl) }
 
 def c02 (kind : String) (inp impl : Json) : Verdict :=
